@@ -340,7 +340,46 @@ def rule_exit(ctx, prop):
                 if s["k"] == "assign" and s["dst"]["l"] == 0 and "p" not in s["dst"] and s["rv"]["k"] == "agg" and \
                         s["rv"].get("variant") == "Ok":
                     rets.append((b, s))
-            if rep.anchor(len(rets) == 1, "single Ok(..) return in format", cfg):
+            rets = [r for r in rets if f.dominates(jb, r[0])] or rets
+            if len(rets) == 2:
+                # `match pool.panic_count() { 0 => Ok(EXIT_CODE.load(..)), _ => Ok(2) }`: one return per side of the test
+                vals = []
+                for rb, rs in rets:
+                    pr = provenance(f, rs["rv"]["ops"][0], through=None)
+                    vals.append((rb, prov_calls(pr), {r[1] for r in pr if r[0] == "const"}))
+                load_side = [v for v in vals if v[1] == {"std::sync::atomic::Atomic::<i32>::load"} and not v[2]]
+                two_side = [v for v in vals if not v[1] and v[2] == {"v:2"}]
+                ok = len(load_side) == 1 and len(two_side) == 1
+                rep.inst("stylua::format returns max(panic?2, EXIT_CODE)", {"returns": 2}, cfg, ok=ok)
+                if not ok:
+                    rep.violation("stylua::format return-value-not-status",
+                                  f"format returns values that are not {{2 on worker panic, EXIT_CODE.load()}}: {[(sorted(v[1]), sorted(v[2])) for v in vals]}",
+                                  f.loc(rets[0][1]["sp"]), cfg)
+                okp = False
+                if ok:
+                    for b, t in pcs:
+                        nb = t["t"]
+                        tt = f.blocks[nb]["term"]
+                        zero = other = None
+                        if tt["k"] == "switch" and not is_const(tt["on"]) and op_place(tt["on"])["l"] == t["dst"]["l"]:
+                            zs = [bb for v, bb in tt["targets"] if v == 0]
+                            zero, other = (zs[0] if zs else None), tt["otherwise"]
+                        else:
+                            for s_ in f.blocks[nb]["st"]:
+                                if s_["k"] == "assign" and s_["rv"]["k"] == "binop" and s_["rv"]["op"] in ("Gt", "Ne", "Eq") and \
+                                        is_const(s_["rv"]["b"]) and s_["rv"]["b"].get("v") == 0 and tt["k"] == "switch":
+                                    fl_ = [bb for v, bb in tt["targets"] if v == 0]
+                                    if s_["rv"]["op"] == "Eq":
+                                        zero, other = tt["otherwise"], (fl_[0] if fl_ else None)
+                                    else:
+                                        zero, other = (fl_[0] if fl_ else None), tt["otherwise"]
+                        if zero is not None and other is not None:
+                            okp = f.dominates(zero, load_side[0][0]) and f.dominates(other, two_side[0][0]) and zero != other
+                rep.inst("stylua::format panic_count>0 -> 2", None, cfg, ok=okp)
+                if not okp:
+                    rep.violation("stylua::format panic-count-not-mapped-to-2",
+                                  "`pool.panic_count() > 0` does not select exit status 2", f.loc(pcs[0][1]["sp"]), cfg)
+            elif rep.anchor(len(rets) == 1, "single Ok(..) return in format", cfg):
                 pr = provenance(f, rets[0][1]["rv"]["ops"][0], through=None)
                 calls = prov_calls(pr)
                 consts = {r[1] for r in pr if r[0] == "const"}
@@ -503,6 +542,42 @@ def rule_stdout(ctx, prop, stdin_clause=False):
                 if not ok:
                     rep.violation(f"{f.key} unexpected-stdout-handle", "stdout() obtained outside the output thread",
                                   f.loc(t["sp"]), cfg)
+        # the Summary header / footer only ever accompany diffs: every output format under which a println! can run is refused
+        # at the top of `format` unless --check is given (so that without --check stdout carries the formatted text alone)
+        ff = prog.fn("stylua", "format")
+        if ff is not None:
+            variants = prog.variants("opt::OutputFormat", "stylua") or []
+            sw = field_switches(ff, "check")
+            prints = [(b, t) for b, t in ff.calls() if callee(t) == "std::io::_print"]
+            if rep.anchor(bool(sw) and bool(variants), "branch on opt.check / OutputFormat variants in format", cfg) and prints:
+                # the refusal: blocks reached from the not-check edge of the first test that cannot reach any println / pool
+                first = min(sw, key=lambda x: x[0])
+                fl = first[2]
+                work_blocks = {b for b, t in ff.calls() if callee(t) in ("std::io::_print", "threadpool::ThreadPool::new", "threadpool::ThreadPool::execute")
+                               or re.search(r"ConfigResolver::<'_>::new$|WalkBuilder::new$", callee(t))}
+                after_work = set()
+                for w in work_blocks:
+                    after_work |= ff.reach_from(w)
+                refused = set()
+                if fl is not None:
+                    for bb in ff.reach_from(fl):
+                        if bb in after_work:
+                            continue      # not part of the refusal at the top
+                        if not (ff.reach_from(bb) & work_blocks) and bb not in work_blocks:
+                            for V in variants:
+                                if guarded_by_variant(ff, bb, "opt::OutputFormat", V, only=False):
+                                    refused.add(V)
+                for b, t in prints:
+                    under = {V for V in variants if guarded_by_variant(ff, b, "opt::OutputFormat", V, only=False)}
+                    # under --check only: not reachable from the not-check edge of a test of opt.check that dominates it
+                    checked = any(fl_ is not None and ff.dominates(sb_, b) and b not in ff.reach_from(fl_) for sb_, _, fl_, _ in sw)
+                    okp = checked or (bool(under) and under <= refused)
+                    rep.inst(f"{ff.key} println only when --check is implied", {"formats": sorted(under), "refused_without_check": sorted(refused)}, cfg, ok=okp)
+                    if not okp:
+                        rep.violation(f"{ff.key} println-reachable-without-check formats={','.join(sorted(under - refused)) or 'any'}",
+                                      f"a println! of `format` runs under output format(s) {sorted(under) or 'any'} but only {sorted(refused)} are "
+                                      f"refused when --check is absent: `stylua --output-format={'/'.join(v.lower() for v in sorted(under - refused)) or '..'} -` "
+                                      f"prints the header / footer lines around the formatted text on stdout", ff.loc(t["sp"]), cfg)
         # write_all on stdout in the output closure: payload provenance
         oc = _output_closure(prog)
         if not rep.anchor(oc is not None, "output closure format::{closure#0}", cfg):
@@ -598,6 +673,30 @@ def rule_stdout(ctx, prop, stdin_clause=False):
     return rep
 
 
+def _operand_slice(f, o, depth=0, seen=None):
+    """operands the value of `o` is computed from (through copies, casts, arithmetic and calls' arguments)"""
+    seen = set() if seen is None else seen
+    out = []
+    if o is None or is_const(o) or depth > 10:
+        return out
+    out.append(o)
+    l = op_place(o)["l"]
+    if l in seen:
+        return out
+    seen.add(l)
+    for bi, si, s in f.defs().get(l, []):
+        if si == "term":
+            for a in s["args"]:
+                out += _operand_slice(f, a, depth + 1, seen)
+        else:
+            rv = s["rv"]
+            for x in [rv.get("o"), rv.get("a"), rv.get("b")] + list(rv.get("ops", [])):
+                out += _operand_slice(f, x, depth + 1, seen)
+            if rv["k"] in ("ref", "rawptr", "discr"):
+                out += _operand_slice(f, {"cp": rv["p"]}, depth + 1, seen)
+    return out
+
+
 def rule_workers(ctx, prop):
     rep = Report(prop, "R-WORKERS", "results travel as values: every worker sends exactly its Result over the channel; "
                                     "the output loop has no early exit")
@@ -608,9 +707,31 @@ def rule_workers(ctx, prop):
         ff = prog.fn("stylua", "format")
         if ff is not None:
             tp = [(b, t) for b, t in ff.calls() if callee(t) == "threadpool::ThreadPool::new"]
-            if rep.anchor(len(tp) == 1, "ThreadPool::new in format", cfg):
+            size_arg = tp[0][1]["args"][0] if len(tp) == 1 else None
+            if not tp:
+                # `threadpool::Builder::new().num_threads(n)...build()`: the size is num_threads' argument; no other parameter of
+                # the pool may depend on the thread count (a per-thread stack size derived from it makes deep inputs overflow
+                # at some thread counts and not at others)
+                nts = [(b, t) for b, t in ff.calls() if callee(t) == "threadpool::Builder::num_threads"]
+                blds = [(b, t) for b, t in ff.calls() if callee(t) == "threadpool::Builder::build"]
+                if len(nts) == 1 and len(blds) == 1:
+                    tp = nts
+                    size_arg = nts[0][1]["args"][1]
+                for b, t in ff.calls():
+                    m = re.match(r"threadpool::Builder::(\w+)$", callee(t))
+                    if not m or m.group(1) in ("new", "num_threads", "build", "thread_name") or len(t["args"]) < 2:
+                        continue
+                    dep = any(("f", "num_threads") in proj_fields(op_place(o)) for o in _operand_slice(ff, t["args"][1]))
+                    rep.inst(f"stylua::format pool parameter {m.group(1)} independent of the thread count", None, cfg, ok=not dep)
+                    if dep:
+                        rep.violation(f"stylua::format pool-parameter-depends-on-thread-count setter={m.group(1)}",
+                                      f"Builder::{m.group(1)} is given a value computed from opt.num_threads: what a worker can do "
+                                      f"(its stack) then differs between thread counts - a deeply nested file formats with "
+                                      f"--num-threads 2 and overflows the stack (abort, file untouched) with --num-threads 16",
+                                      ff.loc(t["sp"]), cfg)
+            if rep.anchor(len(tp) == 1 and size_arg is not None, "ThreadPool::new (or Builder::num_threads + build) in format", cfg):
                 okp = False
-                for r in provenance(ff, tp[0][1]["args"][0], through=None):
+                for r in provenance(ff, size_arg, through=None):
                     if r[0] == "const" and re.match(r"^v:\d+$", r[1]) and int(r[1][2:]) >= 2:
                         okp = True
                     if r[0] == "call" and re.search(r"cmp::max$|Ord>?::max$|::max$", r[1]):
@@ -660,7 +781,7 @@ def rule_workers(ctx, prop):
         rep.floor("worker closures", n, 2, cfg)
         # a panicking formatter job is noticed through panic_count() of the pool that ran it
         def _pool_roots(o):
-            return {r[2] for r in provenance(f, o, into_aggs=False) if r[0] == "call" and r[1].endswith("ThreadPool::new")}
+            return {r[2] for r in provenance(f, o, into_aggs=False) if r[0] == "call" and (r[1].endswith("ThreadPool::new") or r[1].endswith("threadpool::Builder::build"))}
         pcs = [(b, t) for b, t in f.calls() if callee(t).endswith("ThreadPool::panic_count")]
         if rep.anchor(len(pcs) >= 1, "ThreadPool::panic_count in format", cfg):
             counted = set()
